@@ -751,6 +751,10 @@ class Saver:
 
                 for chunk in chunks:
                     new_f = self.save(chunk=chunk, chunk_i=chunk_i, executor=executor)
+                    for f in pending:
+                        if f.done():
+                            # Surface a failed write instead of forgetting it
+                            f.result()
                     pending = [f for f in pending if not f.done()]
                     if new_f is not None:
                         pending += [new_f]
@@ -809,16 +813,23 @@ class Saver:
         if self.closed:
             raise RuntimeError(f"{self.md} saver already closed")
 
+        failed = None
         if wait_for:
             done, not_done = wait(wait_for, timeout=self.timeout)
             if len(not_done):
                 raise RuntimeError(f"{len(not_done)} futures of {self.md} did notcomplete in time!")
+            for f in wait_for:
+                if f.exception() is not None:
+                    failed = f.exception()
+                    break
 
         self.closed = True
 
         exc_info = strax.formatted_exception()
         if exc_info:
             self.md["exception"] = exc_info
+        elif failed is not None:
+            self.md["exception"] = repr(failed)
 
         if self.md["chunks"]:
             # Update to precise start and end values
@@ -830,6 +841,12 @@ class Saver:
         self.md["writing_ended"] = time.time()
 
         self._close()
+
+        if failed is not None and not exc_info:
+            # A pending write failed: the data is marked as broken above,
+            # and the failure must not be reported as a success.
+            self.got_exception = failed
+            raise failed
 
     ##
     # Abstract methods (to override in child)
